@@ -55,6 +55,7 @@ func init() {
 	commands["crash-child"] = crashx.Child
 	commands["crash-errors"] = crashx.RunErrors
 	commands["clock"] = clockx.Run
+	commands["clock-conc"] = clockx.Conc
 	commands["forge"] = forge.Run
 	commands["forge-worker"] = forge.Worker
 	commands["ids-vectors"] = idsx.Vectors
